@@ -96,6 +96,10 @@ class RingFamily(Family):
                 L.append(self.line(p + list(seq)))
             for seq in itertools.product(ALPHA2, repeat=3 if thorough else 2):
                 L.append(self.line(p + list(seq)))
+        # 2b. the empty feature word in place of `feat 0` in every position of short histories over the 1-ring alphabet
+        for pre in (["feat z"], ["feat 1", "kick 0 new", "feat z"], ["feat 0", "kick 0 new", "reset", "feat z"], ["kick 0 new", "feat z"]):
+            for seq in itertools.product(ALPHA1R, repeat=3 if thorough else 2):
+                L.append(self.line(pre + list(seq)))
         # 3. random, depth 20 (weights keep the connection alive most of the time: SET_VRING_ENABLE is drawn mostly
         #    while bit 30 is negotiated)
         for _ in range(6000 if thorough else 700):
@@ -115,6 +119,8 @@ class RingFamily(Family):
                     nego = True
                 elif op in ("feat 0", "reset"):
                     nego = False
+                    if op == "feat 0" and rng.random() < 0.4:
+                        op = "feat z"          # the empty feature word: equal to the initial acked word, still without bit 30
                 ops.append(op)
             L.append(self.line(ops))
         # slow scenarios (a worker that stopped costs one watchdog period) cluster by prefix: spread them over the chunks
